@@ -447,6 +447,31 @@ fn parse_command(
 	}
 
 
+	// Two groups writing to the same file would
+	// silently lose the output of the first one
+	for i in 0..command.output_groups.len()
+	{
+		for j in 0..i
+		{
+			let group_i = &command.output_groups[i];
+			let group_j = &command.output_groups[j];
+
+			if !group_i.printout &&
+				!group_j.printout &&
+				group_i.output_filename.is_some() &&
+				group_i.output_filename == group_j.output_filename
+			{
+				report.error(
+					format!(
+						"multiple output groups write to `{}`",
+						group_i.output_filename.as_ref().unwrap()));
+
+				return Err(());
+			}
+		}
+	}
+
+
 	Ok(command)
 }
 
